@@ -14,21 +14,25 @@ EXTENDS Shapes01
 
 CONSTANTS Shard, NShards
 
-VARIABLES sh, c, done
-vars == <<sh, c, done>>
+VARIABLES sh, c, bm, done
+vars == <<sh, c, bm, done>>
 
 e == Ctx(c, Build(sh))
 
-Init == /\ \/ sh \in Recipes(Leaves, IF Tier = "quick" THEN SmallLeaves ELSE Leaves)
-           \/ (Tier # "quick" /\ sh \in Recipes3(SmallLeaves))
+Init == /\ \/ /\ bm = FALSE
+              /\ \/ sh \in Recipes(Leaves, IF Tier = "quick" THEN SmallLeaves ELSE Leaves)
+                 \/ (Tier # "quick" /\ sh \in Recipes3(SmallLeaves))
+           \/ /\ bm = TRUE                      \* bytes mode
+              /\ sh \in Recipes(LeavesB, {<<"byte", a>>, Str(<<a, b>>), Ref("R1")})
+              /\ (Tier = "quick" => sh[1] <= 2)
         /\ c \in CtxIds(sh)
         /\ Renderable(e)
         /\ done = FALSE
 
 Step == /\ ~done
         /\ done' = TRUE
-        /\ UNCHANGED <<sh, c>>
-        /\ EmitCase(Grammar(e), [prop |-> "C01"], <<"start">>, Texts)
+        /\ UNCHANGED <<sh, c, bm>>
+        /\ EmitCase(Grammar(e), IF bm THEN [prop |-> "C01", bytes |-> TRUE] ELSE [prop |-> "C01"], <<"start">>, Texts)
 
 Next == Step
 
